@@ -33,10 +33,23 @@ def comment_defects(ck):
     for _ in range(n):
         ind = rng.choice(["", "    ", "\t", "  "])
         eol = rng.choice(["\n", "\n", "\r\n"])
-        host = rng.choice(["void-op", "struct", "struct", "enumerator", "field", "custom"])
+        host = rng.choice(["void-op", "struct", "struct", "enumerator", "field", "custom", "param-op", "param-op"])
         # (@param on an enumerator documents a field of it: not a misfit)
         tag = "@returns" if host == "void-op" else rng.choice(["@returns", "@returns r"] if host == "enumerator" else ["@param p", "@returns", "@returns r"])
         out, want = [], []      # want: (code, (r1, c1, r2, c2))
+        if host == "param-op":
+            # a @param tag that names no parameter: the report covers the tag and the name, whatever stands between the name and the colon
+            nm = rng.choice(["nosuch", "b", "é1" if False else "zz9"])
+            gap = rng.choice(["", "", " ", "  ", "\t"])
+            tagline = ind + "/// " + rng.choice(["", " "]) + "@param " + nm + gap + rng.choice([": text", ": é more", ":", "" if gap == "" else ""]) 
+            out = ["module M", "interface I {"] + ([ind + "/// Overview."] if rng.random() < 0.5 else []) + [tagline, ind + "op(a: int32)", "}"]
+            row = out.index(tagline) + 1
+            c0 = tagline.index("@") + 1
+            want = [("IncorrectDocComment", (row, c0, row, c0 + len("@param ") + len(nm)))]
+            text = eol.join(out) + eol
+            lines_.append("diags - " + hx(text))
+            metas.append((text, sorted(want)))
+            continue
         pre = {"void-op": ["module M", "interface I {"], "struct": ["module M"], "enumerator": ["module M", "enum E {"], "field": ["module M", "struct S {"], "custom": ["module M"]}[host]
         post = {"void-op": [ind + "op()", "}"], "struct": [ind + "struct S {}"], "enumerator": [ind + "A", "}"], "field": [ind + "a: int32", "}"], "custom": [ind + "custom C"]}[host]
         out += pre
